@@ -122,6 +122,8 @@ def minkowski_1d(p):
         for e in range(sim.shape[0]):
             mean = mean + sim[e]
         mean = mean / sim.shape[0]
+        if math.isinf(p):
+            return float(np.max(np.abs(mean - real)))      # Chebyshev distance, the p -> inf limit
         return float(np.sum(np.abs(mean - real) ** p) ** (1.0 / p))
 
     return f
@@ -260,9 +262,10 @@ def symbolise(x, nb):
     return sym, near_edge
 
 
-def _entropy(counter, base):
+def _entropy(counter, log_base):
+    """Shannon entropy in the base whose natural logarithm is `log_base`."""
     tot = sum(counter.values())
-    return -sum((c / tot) * (math.log(c / tot) / math.log(base)) for c in counter.values())
+    return -sum((c / tot) * (math.log(c / tot) / log_base) for c in counter.values())
 
 
 def tuple_words(sym, l):  # noqa: E741
@@ -274,10 +277,10 @@ def gsl_1_sample(sim_sym, obs_sym, L, nb, T, labeler=tuple_words):
     for l in range(1, L + 1):  # noqa: E741
         ws, wo = labeler(sim_sym, l), labeler(obs_sym, l)
         cs, cm = Counter(ws), Counter(ws + wo)
-        base = float(nb) ** l
+        log_base = l * math.log(nb)          # log(nb**l), which exists for every l (nb**l itself leaves the float range for long words)
         w = 2.0 * l / (L * (L + 1))
         corr = ((len(cm) - 1) - (len(cs) - 1)) / (2.0 * T)
-        total += w * (2 * _entropy(cm, base) - _entropy(cs, base) + corr)
+        total += w * (2 * _entropy(cm, log_base) - _entropy(cs, log_base) + corr)
     return total
 
 
